@@ -316,8 +316,8 @@ SHUTTLE_PROPS = {
             "assume": ["soundness against the edges the property lists; precision against the object-conservative relation (every operation on an object after every earlier one on it, plus tasks queued on it)",
                        "no edge is claimed for a lazy static that is already initialised, for park/unpark, or for failed try operations",
                        "target-clock replay (ReplayScheduler::set_target_clock) is not covered yet"]},
-    "C17": {"stages": [F("async", 30, 300), F("async_noabort", 24, 250), F("async_sem", 24, 250), F("corpus_sem", 0, 0),
-                       F("async_blk", 20, 200), F("async_wake", 16, 200), F("corpus_async", 0, 0),
+    "C17": {"stages": [F("async", 30, 150), F("async_noabort", 24, 120), F("async_sem", 24, 120), F("corpus_sem", 0, 0),
+                       F("async_blk", 20, 100), F("async_wake", 16, 100), F("corpus_async", 0, 0),
                        {"fam": "async", "quick": 10, "thorough": 100, "mc": False, "sample": (40, 300), "pb": None}],
             "assume": ["one awaiter per hand-written waker slot; blocking std calls inside a poll are lock/unlock pairs and channel receives (no guard is held across an await)",
                        "block_on sections of threads use the same poll loop as spawned futures"]},
@@ -347,14 +347,14 @@ SHUTTLE_PROPS = {
     "C02": {"stages": [F("kernel", 14, 150), F("mutex", 14, 120), F("rwlock", 16, 150), F("atomic", 20, 200),
                        F("condvar", 18, 200), F("park", 20, 150), F("barrier", 20, 150), F("barrier_reuse", 12, 100),
                        F("once", 16, 150), F("mpsc", 30, 300), F("mpsc_drop", 30, 300), F("sem_unfair", 20, 200),
-                       F("sem_fair", 20, 200), F("async", 30, 300), F("async_noabort", 24, 250), F("async_sem", 24, 250),
-                       F("async_blk", 16, 150), F("corpus_async", 0, 0), F("corpus_sem", 0, 0), F("corpus_deadlock", 0, 0), F("corpus_locks", 0, 0),
+                       F("sem_fair", 20, 200), F("async", 30, 150), F("async_noabort", 24, 120), F("async_sem", 24, 120),
+                       F("async_blk", 16, 80), F("corpus_async", 0, 0), F("corpus_sem", 0, 0), F("corpus_deadlock", 0, 0), F("corpus_locks", 0, 0),
                        F("corpus_sync", 0, 0), F("corpus_mpsc", 0, 0)],
             "kinds": {"outcome-missing-in-impl", "harness-crash", "tlc-error"},
             "assume": ["outcome = per-thread results + termination kind + unfinished set; spurious park wake-ups are not part of outcome sets",
                        "programs whose runtime tree exceeds the execution cap are compared in the impl-in-spec direction only"]},
     "C03": {"stages": [F("mutex", 14, 120), F("condvar", 14, 120), F("park", 20, 150), F("mpsc", 14, 120),
-                       F("async", 30, 300), F("async_noabort", 24, 250), F("async_blk", 16, 150), F("async_wake", 12, 150),
+                       F("async", 30, 150), F("async_noabort", 24, 120), F("async_blk", 16, 80), F("async_wake", 12, 80),
                        F("corpus_async", 0, 0), F("corpus_deadlock", 0, 0)],
             "assume": ["termination oracle = derived Status (DESIGN 4.1); tasks<=3, ops<=3 (quick)"]},
     "C04": {"stages": [F("mutex", 20, 200), F("rwlock", 16, 150), F("atomic", 20, 200), F("corpus_locks", 0, 0),
@@ -370,7 +370,7 @@ SHUTTLE_PROPS = {
     "C08": {"stages": [F("kernel", 14, 150), F("mutex", 14, 120), F("park", 20, 150)],
             "assume": ["observed through a recording Scheduler wrapper placed inside the runtime's MetricsScheduler"]},
     "C18": {"stages": [F("sem_unfair", 20, 200), F("sem_fair", 20, 200), F("sem_unfair_obs", 16, 150, mc=False),
-                       F("sem_fair_obs", 16, 150, mc=False), F("async_sem", 24, 250), F("corpus_sem", 0, 0)],
+                       F("sem_fair_obs", 16, 150, mc=False), F("async_sem", 24, 120), F("corpus_sem", 0, 0)],
             "assume": ["blocking acquires from threads, awaited acquires from futures; cancellation = abort of a future pending in acquire"]},
 }
 
